@@ -485,9 +485,12 @@ func TestC12(t *testing.T) {
 	// the last rows: characters whose simple case folding is not ToLower/ToUpper (final sigma, long s,
 	// Kelvin sign, dotted/dotless i, titlecase digraph) - Go's (?i) folds by orbit
 	patterns := []string{"a", "^a", "b$", "a.c", "^a.*c$", "A", "[ab]+", "a|x", ".", "^$", "a\\.c", "a+", "\\d", "(a)(b)", "^b", "a.b", "a$", "^A", "é", "(", "a.c$", "^",
-		"σ", "Σ", "ς", "s", "ſ", "k", "\u212a", "i", "İ", "ı", "ǆ", "ǅ", "É", "ß", "SS", "σας", "µ", "μ"}
+		"σ", "Σ", "ς", "s", "ſ", "k", "\u212a", "i", "İ", "ı", "ǆ", "ǅ", "É", "ß", "SS", "σας", "µ", "μ",
+		// text that means something to the regexp syntax when it is not quoted properly (the q flag makes it literal)
+		"C:\\Users\\Eve", "\\E", "a\\Eb", "\\Qa", "\\Qa\\E", "a\\", "[", "a|b*", "^$", "(?i)a"}
 	subjects := []string{"", "a", "abc", "ABC", "a\nc", "a\nb", "b\na", "a.c", "xay", "Abc\nabc", "é", "(", "a(b", "aaa", "1",
-		"σ", "Σ", "ς", "S", "ſ", "K", "\u212a", "I", "İ", "ı", "Ǆ", "ǅ", "É", "ß", "ss", "ΣΑΣ", "µ", "Μ"}
+		"σ", "Σ", "ς", "S", "ſ", "K", "\u212a", "I", "İ", "ı", "Ǆ", "ǅ", "É", "ß", "ss", "ΣΑΣ", "µ", "Μ",
+		"C:\\Users\\Eve", "x\\Ey", "a\\Eb", "\\Qa", "a\\", "[", "a|b*"}
 	flagSets := []string{"", "i", "s", "m", "q", "is", "im", "sm", "ism", "iq", "qs", "qm", "iqsm", "ii"}
 	t.Run("string_predicates", func(t *testing.T) {
 		b := ev.enum(t)
